@@ -549,6 +549,7 @@ def write_replay(prop, seed, run, tape_values, target, fresh_result=None):
         "events": r.get("events"),
         "digest": r.get("digest"),
         "expect": {"clause": target[1], "cls": target[2], "message": v["msg"] if v else None},
+        "tier": os.environ.get("VERIF_TIER", "quick"),
         "how_to_replay": f"VERIF_SEED={seed} ./check {prop} --replay <this file>   (fresh interpreter, tape executed in-process)",
     }
     with open(path, "w") as f:
@@ -562,6 +563,7 @@ def replay_file(runfn, prop, path):
         doc = json.load(f)
     if doc["property"] != prop:
         return 2, f"replay file is for {doc['property']}, not {prop}"
+    os.environ["VERIF_TIER"] = doc.get("tier", "quick")  # the thorough tier enumerates where the quick tier samples
     r = run_inproc(runfn, prop, values=doc["tape"], keep_events=True)
     if r.get("status") != "ok":
         return 2, f"harness error during replay: {r.get('err')}"
